@@ -119,6 +119,8 @@ def main():
     for i in range(0, len(cases), B):
         d.process(cases[i:i + B])
     found = d.finish()
+    from props.bulk_common import bulk_phase
+    bulk_phase(run, bins["release"], "C08")
     proof_failure_violation(run, found or run.violations)
     run.cov["rule"] = ("random histories (<= 35 quick / 60 thorough ops) over add_node/add_root_node/remove_node/add_edge/add_edge_with_weight/remove_edge/clear, "
                        "indices aimed at live nodes (80%) or arbitrary, duplicate edges, initial capacities 0/1/2/8 (growth), index reuse after removals; after EVERY op "
@@ -134,4 +136,8 @@ def main():
 
 def replay(path):
     run = Run("C08"); ensure_driver(); bins = builds(run)
+    import json as _j
+    if _j.load(open(path)).get("bulk"):
+        from props.bulk_common import bulk_replay
+        return bulk_replay("C08", bins["release"], path)
     return generic_replay(mk_diff(run, bins), path)
